@@ -210,6 +210,33 @@ class Mirror(_Embed):
         return res
 
 
+def _paired_bcs(w, wl, axmap, b):
+    """BoundaryConditions of the reduced grid with independent coefficient arrays, and of the higher-dimensional grid
+    with the same arrays extruded along the redundant axis b (whose own two faces keep the default no-flux condition)"""
+    from .bc import SIDES, side_shape
+    BCl = bnd.BoundaryConditions(wl.mesh)
+    BCh = bnd.BoundaryConditions(w.mesh)
+    for al in range(wl.nd):
+        ah = axmap[al]
+        for s in (0, 1):
+            fl, fh = getattr(BCl, SIDES[al][s]), getattr(BCh, SIDES[ah][s])
+            for cn in 'abc':
+                arr = wl.array('e%d%d%d%s_%s' % (axmap[0], b, al, 'lh'[s], cn), side_shape(wl, al))
+                setattr(fl, cn, arr)
+                keep = [x for x in range(w.nd) if x != ah]            # axes of the high face array
+                lowkeep = [x for x in axmap if x != ah]              # those that exist in the low grid
+                pos = [keep.index(x) for x in lowkeep]
+                if wl.nd == 1:
+                    if w.symbolic:
+                        big = SymNDArray.from_fn(side_shape(w, ah), (lambda idx, sn=arr.snap(): sn((I(0),))), 'real')
+                    else:
+                        big = T.real_np.full(tuple(int(x) for x in side_shape(w, ah)), float(arr[0]))
+                else:
+                    big = w.extrude(arr, pos, side_shape(w, ah))
+                setattr(fh, cn, big)
+    return BCl, BCh
+
+
 class BoundaryEmbedding(_Embed):
     """ghost values and boundary rows of the higher-dimensional grid with coefficient arrays that do not vary along the
     redundant axis equal those of the reduced grid (the redundant axis itself being no-flux)"""
@@ -222,32 +249,12 @@ class BoundaryEmbedding(_Embed):
     grids = tuple(sorted({p[0] for p in PAIRS}))
 
     def setup(self, w):
-        from .bc import SIDES, side_shape
         out = []
         for hg, lg, axmap, b in PAIRS:
             if hg != w.grid:
                 continue
             wl = w.sibling(lg, axmap)
-            BCl = bnd.BoundaryConditions(wl.mesh)
-            BCh = bnd.BoundaryConditions(w.mesh)
-            for al in range(wl.nd):
-                ah = axmap[al]
-                for s in (0, 1):
-                    fl, fh = getattr(BCl, SIDES[al][s]), getattr(BCh, SIDES[ah][s])
-                    for cn in 'abc':
-                        arr = wl.array('e%d%d%d%s_%s' % (axmap[0], b, al, 'lh'[s], cn), side_shape(wl, al))
-                        setattr(fl, cn, arr)
-                        keep = [x for x in range(w.nd) if x != ah]            # axes of the high face array
-                        lowkeep = [x for x in axmap if x != ah]              # those that exist in the low grid
-                        pos = [keep.index(x) for x in lowkeep]
-                        if wl.nd == 1:
-                            if w.symbolic:
-                                big = SymNDArray.from_fn(side_shape(w, ah), (lambda idx, sn=arr.snap(): sn((I(0),))), 'real')
-                            else:
-                                big = T.real_np.full(tuple(int(x) for x in side_shape(w, ah)), float(arr[0]))
-                        else:
-                            big = w.extrude(arr, pos, side_shape(w, ah))
-                        setattr(fh, cn, big)
+            BCl, BCh = _paired_bcs(w, wl, axmap, b)
             inner_l = wl.array('in_%d%d' % (axmap[0], b), tuple(wl.N))
             inner_h = w.extrude(inner_l, list(axmap), tuple(w.N))
             gl = bnd.cellValuesWithBoundaries(inner_l, BCl)
@@ -280,6 +287,58 @@ class BoundaryEmbedding(_Embed):
                 res.append(('redundant_axis_ghost_is_interior_value[%s->%s]' % (w.grid, wl.grid), w.eq(w.at(gh, P), wl.at(gl, Pl_in))))
             else:
                 res.append(('boundary_values_equal_reduced_grid[%s->%s drop %s]' % (w.grid, wl.grid, AX[b]), w.eq(w.at(gh, P), wl.at(gl, Pl))))
+        if not w.symbolic:
+            w.scale = 1e3
+        return res
+
+
+class BoundaryRowsEmbedding(_Embed):
+    """the boundary EQUATIONS of the higher-dimensional grid (rows of boundaryConditionsTerm, what the implicit solver
+    uses), applied to a field that does not vary along the redundant axis, equal those of the reduced grid on every
+    face ghost of a retained axis, and are satisfied identically on the (no-flux) faces of the redundant axis"""
+    name = 'embedding/boundary_rows'
+    grids = tuple(sorted({p[0] for p in PAIRS}))
+
+    def parts(self, w):
+        return [None]
+
+    def setup(self, w):
+        out = []
+        for hg, lg, axmap, b in PAIRS:
+            if hg != w.grid:
+                continue
+            wl = w.sibling(lg, axmap)
+            BCl, BCh = _paired_bcs(w, wl, axmap, b)
+            Ml, Rl = bnd.boundaryConditionsTerm(BCl)
+            Mh, Rh = bnd.boundaryConditionsTerm(BCh)
+            pl = wl.rawcell('q_%d%d' % (axmap[0], b))
+            ph = T.RawCell(w.mesh, w.extrude(pl._value, list(axmap), w.ghost_shape()))
+            out.append((wl, axmap, b, Ml, Rl, Mh, Rh, pl._value, ph._value))
+        return dict(out=out)
+
+    def region(self, w):
+        return [c for a in range(w.nd) for c in (I(w.P[a]) >= 0, I(w.P[a]) <= w.N[a] + 1)]
+
+    def points(self, w):
+        import itertools
+        return list(itertools.product(*[range(0, n + 2) for n in w.N]))
+
+    def claims(self, w, S, P, part=None):
+        res = []
+        for wl, axmap, b, Ml, Rl, Mh, Rh, pl, ph in S['out']:
+            onb = []
+            for a in range(w.nd):
+                o = CTX.decide((I(P[a]) == 0) | (I(P[a]) == w.N[a] + 1)) if w.symbolic else (P[a] in (0, w.N[a] + 1))
+                onb.append(o)
+            if sum(1 for o in onb if o) != 1:
+                continue          # interior cells have no boundary row; corner / edge cells are bookkeeping rows
+            rh = w.apply(Mh, ph, P) - w.vec(Rh, P)
+            if onb[b]:
+                res.append(('redundant_axis_rows_hold_identically[%s->%s drop %s]' % (w.grid, wl.grid, AX[b]), w.eq(rh, 0)))
+            else:
+                Pl = tuple(P[a] for a in axmap)
+                rl = wl.apply(Ml, pl, Pl) - wl.vec(Rl, Pl)
+                res.append(('boundary_rows_equal_reduced_grid[%s->%s drop %s]' % (w.grid, wl.grid, AX[b]), w.eq(rh, rl)))
         if not w.symbolic:
             w.scale = 1e3
         return res
